@@ -642,7 +642,7 @@ func checkGrow(r *Run, rc *RuleCtx, le *linEval, grow *ssa.Function, rawF *types
 				return
 			}
 			l := pr.linLen(ld, "len")
-			res := pr.Prove(ret, Goal{X: n, YL: &l, C: 0, extra: []ssa.Value{ld}})
+			res := pr.Prove(ret, Goal{X: n, YL: &l, C: 0, extra: []ssa.Value{ld}, assume: c.PathConds()})
 			if !res.OK && !rep[ret] {
 				rep[ret] = true
 				rc.ViolationPath(grow, instrPos(ret), "return without growing", "grow returns with len(Raw) < n: the header writes that follow index past the buffer", c.Witness(grow, ret))
